@@ -35,6 +35,9 @@ def job_from_spec(spec):
     opts = list(spec.get("opts", []))
     if spec["kind"] == "fixture-rich":
         return [("rich", common.igate_job("rich", {"rich.h": common.read_fixture("single/rich.h")}, ["rich.h"], be, opts=opts))]
+    if spec["kind"] == "fixture-slots":
+        # differently named functions that map to the same Python slot (operator bool / __bool__, size / __len__, ...)
+        return [("slots", common.igate_job("slots", {"slots.h": common.read_fixture("single/slots.h")}, ["slots.h"], be, opts=opts))]
     if spec["kind"] == "gen":
         rng = Rng(spec["hseed"])
         text, _ = hdr_gen.gen_header(rng, "g", spec["n_classes"], overload_heavy=True, n_macros=spec.get("n_macros", 5), n_funcs=3)
@@ -119,7 +122,9 @@ def generate(ctx):
         if "-fnames" in opts and "-true-names" in opts:
             opts.remove("-true-names")
         k = i % 5
-        if k == 4:
+        if i % 10 == 6:
+            spec = {"kind": "fixture-slots", "backend": rng.choice(["-python-native", "-python-native", "-python", "-c"]), "opts": opts}
+        elif k == 4:
             spec = {"kind": "imports", "backend": "-python-native" if rng.chance(3, 4) else be, "opts": [o for o in opts if o != "-do-module"],
                     "hseed": rng.next(), "n_ns": rng.range(2, 5), "n_simple": rng.range(1, 3)}
         elif k == 0:
@@ -326,8 +331,9 @@ def execute(plan):
             if norm.get(key) != ref[key]:
                 step, ch = key.split("/")
                 kind = _classify(ref[key], norm.get(key))
-                if env["stale"]:
-                    kind = "stale"
+                if env["stale"] and norm.get(key) is not None and ref.get(key) is not None and (
+                        b"STALE OUTPUT" in norm[key] or (len(norm[key]) == len(ref[key]) and norm[key][:-12] == ref[key][:-12])):
+                    kind = "stale"      # the output still carries bytes of the file that was there before
                 tool = "interrogate_module" if step == "mod" else "interrogate"
                 backend = plan["spec"]["backend"]
                 violations.append({
